@@ -143,11 +143,16 @@ pub struct DbCfg {
 	pub zero_salt: bool,
 	pub sync_wal: bool,
 	pub sync_data: bool,
+	/// the repository's test option: every log file is rotated and applied at once instead of
+	/// after 64 MiB - with real worker threads the only way to see records applied and log
+	/// files reclaimed while clients are still committing
+	#[serde(default)]
+	pub always_flush: bool,
 }
 
 impl DbCfg {
 	pub fn new(cols: Vec<ColCfg>) -> DbCfg {
-		DbCfg { cols, zero_salt: false, sync_wal: true, sync_data: true }
+		DbCfg { cols, zero_salt: false, sync_wal: true, sync_data: true, always_flush: false }
 	}
 	pub fn options(&self, path: &Path, background: bool) -> Options {
 		let mut o = Options::with_columns(path, self.cols.len() as u8);
@@ -162,7 +167,7 @@ impl DbCfg {
 		o.stats = false;
 		o.salt = Some(if self.zero_salt { [0u8; 32] } else { FIXED_SALT });
 		o.with_background_thread = background;
-		o.always_flush = false;
+		o.always_flush = self.always_flush;
 		o
 	}
 }
